@@ -817,6 +817,8 @@ func main() {
 				ip = append(iprogs(1, 4), iprogs(2, 3)...)
 			}
 			es := escripts(L)
+			ip21 := iprogs(2, 1)
+			cfg21 := vsched.Config{MaxPreempt: 2, MaxFree: 2, MaxTotal: 2, MaxSteps: 30000}
 			var pcs []pcase
 			for _, n := range []int{1, 2} {
 				for _, rp := range []bool{false, true} {
@@ -839,6 +841,12 @@ func main() {
 					var out *iout
 					explore(r, cfgI, ip[i].String(), func() { out = &iout{}; runImports(ip[i], out) },
 						func(vr *vsched.Result) (string, string) { return judgeImports(ip[i], out, vr) },
+						func() string { return wireKinds(out.sim) })
+				}),
+				mk("imports-2x1,dev2", len(ip21), func(i int64) string { return ip21[i].String() }, func(i int64, r *vlib.Rec) {
+					var out *iout
+					explore(r, cfg21, ip21[i].String(), func() { out = &iout{}; runImports(ip21[i], out) },
+						func(vr *vsched.Result) (string, string) { return judgeImports(ip21[i], out, vr) },
 						func() string { return wireKinds(out.sim) })
 				}),
 				mk("params", len(pcs), func(i int64) string { return pcs[i].String() }, func(i int64, r *vlib.Rec) {
